@@ -38,7 +38,10 @@ ASSUMPTIONS = [
     "bounded: the property is decided on the listed family of abstract terms (<= 5 objects, <= 8 indices), not for all terms",
     "the vocabulary of Term/Obj/Index (objects, target, base_and_exponent, sympy.is_number, longname, idx, space, spin, "
     "name, get_symbols) is modelled, not analysed here",
-    "optimality is decided relative to the candidate schemes the library's own search generates",
+    "optimality is decided relative to the candidate schemes the library's own search generates; completeness of that "
+    "search (which closed groups it offers, growth of groups to their fix point) is not decided",
+    "evaluations that do not terminate within the evaluator's bounds or use constructs outside the evaluator are analysis "
+    "errors (exit 2), not verdicts",
     "an intermediate whose indices equal the requested target tuple is exempt from max_itmd_dim (as documented by the "
     "library: only non result-shaped inner contractions are restricted)",
 ]
@@ -208,6 +211,9 @@ def build_term(world, spec):
                              "number": "prefactor", "operator": "create", "polynom": "polynom"}[kind],
                 longname=(lambda sx, a, kw, n=name: n))
         o.attrs["name"] = name
+        # the wrapper forwards unknown attributes to the wrapped sympy object
+        for k, v in sympy.attrs.items():
+            o.attrs.setdefault(k, v)
         objs.append(o)
     tgt = tuple(world.index(n, s) for n, s in spec.einstein_target())
     return Obj(None, "term", objects=tuple(objs), target=tuple(tgt), idx=tuple(i for o in objs for i in o.attrs["idx"]))
@@ -709,6 +715,9 @@ QUICK = [
     S("rank virt before occ", [("A", "ia"), ("B", "ij"), ("C", "aj")]),
     S("rank multiplicity", [("A", "kia"), ("B", "ki"), ("C", "a")]),
     S("rank computational before memory", [("A", "ij"), ("B", "iqj"), ("C", "q")]),
+    S("rank memory breaks the tie", [("A", "j"), ("B", "jik"), ("C", "ik")]),
+    S("rank memory breaks the tie four", [("A", "icab"), ("B", "c"), ("C", "i"), ("D", "ab")]),
+    S("doubled pair first n 3", [("B", "jk", 2), ("A", "ij"), ("C", "ik")], max_n=3),
     S("rank four", [("A", "aj"), ("B", "bj"), ("C", "qa"), ("D", "qb")]),
     S("n 2", [("f", "ij"), ("t1", "ja"), ("Y", "ab"), ("Z", "bk")], max_n=2),
     S("single", [("V", "ijab")]),
@@ -895,7 +904,7 @@ def _findings(ev):
 
 def floor(ctx, rule, what, found, minimum):
     """instance floor; a tree that already violates the property is reported as such, not as an analysis error"""
-    if not ctx.violations:
+    if not ctx.violations and not any(_findings(ev) for _, _, ev in each(ctx)):
         ctx.floor(rule, what, found, minimum)
 
 
